@@ -147,12 +147,14 @@ def optApply (f : α → FArr → Option FArr) (o : Option α) (x : FArr) : Opti
   | none => some x
   | some v => f v x
 
+/-- the loop `for selector in diag_sels: x = x[selector]` -/
+def applySels (sels : List (List (Option Nat))) (x : FArr) : Option FArr :=
+  sels.foldlM (fun y sel => advIndex sel y) x
+
 /-- `_einsum_single`, lines 346-364 (the path taken when the backend has no `einsum`) -/
-def evalSingle (p : SinglePlan) (x : FArr) : Option FArr := do
-  let x1 ← match p.diag with
-    | none => some x
-    | some sels => sels.foldlM (fun y sel => advIndex sel y) x
-  let x2 ← optApply sumAxes p.sumAxes x1
+def evalSingle (p : SinglePlan) (x : FArr) : Option FArr :=
+  (optApply applySels p.diag x).bind fun x1 =>
+  (optApply sumAxes p.sumAxes x1).bind fun x2 =>
   optApply transpose p.perm x2
 
 /-! ### two operands -/
@@ -338,15 +340,15 @@ def evalPrep (p : Prep) (x : FArr) : Option FArr :=
   | .perm q => transpose q x
   | .eins t d => (parseSingle t d x.shape).bind fun sp => evalSingle sp x
 
-def evalPlan (pl : Plan) (a b : FArr) : Option FArr := do
-  let a1 ← evalPrep pl.eqA a
-  let a2 ← optApply reshape pl.shA a1
-  let b1 ← evalPrep pl.eqB b
-  let b2 ← optApply reshape pl.shB b1
+def evalPlan (pl : Plan) (a b : FArr) : Option FArr :=
+  (evalPrep pl.eqA a).bind fun a1 =>
+  (optApply reshape pl.shA a1).bind fun a2 =>
+  (evalPrep pl.eqB b).bind fun b1 =>
+  (optApply reshape pl.shB b1).bind fun b2 =>
   if pl.pure then mul a2 b2
-  else do
-    let ab ← matmul a2 b2
-    let ab1 ← optApply reshape pl.shAB ab
+  else
+    (matmul a2 b2).bind fun ab =>
+    (optApply reshape pl.shAB ab).bind fun ab1 =>
     optApply transpose pl.permAB ab1
 
 end Cotengra.Bmm
